@@ -109,7 +109,7 @@ fn plan(tier: Tier) -> &'static Vec<U> {
 
 /// Structured families: complete products of small menus around constructs whose analysis has more than one
 /// stage looking at the same declaration (a rejected declaration that later stages still find, two parameters of
-/// one name, generic payloads instantiated to void, deep nesting). (origin, description, text)
+/// one name, generic payloads instantiated to void, deep nesting) and around the lexer's escape handling. (origin, description, text)
 fn family_texts(tier: Tier) -> &'static Vec<(String, String, String)> {
     static P: [OnceLock<Vec<(String, String, String)>>; 2] = [OnceLock::new(), OnceLock::new()];
     P[tier.pick(0, 1)].get_or_init(|| {
@@ -196,6 +196,28 @@ fn family_texts(tier: Tier) -> &'static Vec<(String, String, String)> {
                 let arms: String = l.iter().enumerate().map(|(i, p)| format!("  {p} -> {i}\n")).collect();
                 v.push(("family/voidpat".into(), format!("match on {tn}: {}", l.join(" ; ")), format!("{pre}let r = match s {{\n{arms}}}\n")));
             }
+        }
+        // --- F-strlit: every short content of a string literal over an alphabet of escape-relevant characters, in the three
+        // quote styles, as a complete program and cut off at the end of the file (no closing quote)
+        let alpha = ['\\', 'x', 'u', '4', 'f', 'n', '"', '\'', '{', '}', 'a', 'é'];
+        let maxlen = tier.pick(3, 4);
+        let mut contents: Vec<String> = vec![String::new()];
+        let mut frontier: Vec<String> = vec![String::new()];
+        for _ in 0..maxlen {
+            let mut next = vec![];
+            for c in &frontier {
+                for a in alpha {
+                    next.push(format!("{c}{a}"));
+                }
+            }
+            contents.extend(next.iter().cloned());
+            frontier = next;
+        }
+        for c in &contents {
+            for (q, qn) in [("\"", "double-quoted"), ("'", "single-quoted"), ("\"\"\"", "triple-quoted")] {
+                v.push(("family/strlit".into(), format!("{qn} literal with content {c:?}"), format!("let s = {q}{c}{q}\n")));
+            }
+            v.push(("family/strlit".into(), format!("double-quoted literal with content {c:?}, end of file before the closing quote"), format!("let s = \"{c}")));
         }
         // --- F-nest: one construct nested to depth d (termination in time and stack)
         let shapes: [(&str, &str, &str); 27] = [
@@ -511,8 +533,8 @@ impl Prop for C04 {
              plus, for the same files, every single ERROR mutation at every site (C33's kinds: undefined name, unknown field, literal of another type, deleted arm, assignment to a let, dropped / added / unknown named call argument, bad escape; \
              and the semantic kinds: `x = x` after the line and inside the next block of every name, `x[0] += 1`, postfix `? ! .zz [0] () (zz = 0) = 0` on every identifier, break / continue / return after every line); \
              plus every token string of length ≤ {} over the {}-token alphabet; \
-             plus {} texts of four structured product families: params (6^3 parameter lists incl. repeated names and defaults × 2 bodies × 6 calls), impl (10 implementation targets incl. instantiated / unknown / non-generic types × 10 interface bodies × 10 uses of a value of that type), \
-             voidpat (4 scrutinee types whose generic payload is void × all arm lists of length ≤ 3 over 5 patterns), nest (27 bracketing constructs nested to each depth of a fixed list up to 64 / 128). \
+             plus {} texts of five structured product families: params (6^3 parameter lists incl. repeated names and defaults × 2 bodies × 6 calls), impl (10 implementation targets incl. instantiated / unknown / non-generic types × 10 interface bodies × 10 uses of a value of that type), \
+             voidpat (4 scrutinee types whose generic payload is void × all arm lists of length ≤ 3 over 5 patterns), nest (27 bracketing constructs nested to each depth of a fixed list up to 64 / 128), strlit (every string-literal content of length ≤ 3 / 4 over 12 escape-relevant characters in the three quote styles and unterminated). \
              Each text: check (always) and compile_bytecode (whenever check accepts, and on identity + all prefixes) must return Ok or a non-empty rendered diagnostic, without panic, within {SLOW_S} s. \
              Non-trivial = the text has ≥ 2 tokens that are not blanks/comments (distinct by text hash)",
             c.len(),
